@@ -95,6 +95,7 @@ Lt(a, b) ==
 \* GetValue(unit) of a simple Scalar
 GetValue(a, u) ==
   IF a.q[1].u = u THEN OkV(a.q, a.v)
+  ELSE IF CatQT(a.q[1].c) = "Unknown" THEN OkV(a.q, a.v)        \* the 'Unknown' quantity type takes any unit label and returns the amount as it is
   ELSE IF u \notin UnitNames \/ QT(u) # CatQT(a.q[1].c) THEN Fail("UNITS")
   ELSE OkV(a.q, ConvertU(a.q[1].u, u, a.v))
 
@@ -231,7 +232,9 @@ C04_Pow == [][ LET s == LastStep  c == s.c IN
 C05_FailClosed == [][ LET s == LastStep  c == s.c IN
   /\ (c.op \in {"Add", "Sub"} /\ Dim(pool[c.i].q) # Dim(pool[c.j].q) /\ pool[c.i].q # <<>> /\ pool[c.j].q # <<>>) => (~s.ok /\ s.exc = "UNITS")
   /\ (c.op = "Lt" /\ Dim(pool[c.i].q) # Dim(pool[c.j].q)) => (~s.ok /\ s.exc = "TYPE")
-  /\ (c.op = "GetValue" /\ (c.u \notin UnitNames \/ QT(c.u) # CatQT(pool[c.i].q[1].c))) => (~s.ok /\ s.exc = "UNITS")
+  \* (the statement's exemptions: the 'Unknown' quantity type and dimensionless operands may accept anything)
+  /\ (c.op = "GetValue" /\ (c.u \notin UnitNames \/ QT(c.u) # CatQT(pool[c.i].q[1].c)) /\ CatQT(pool[c.i].q[1].c) \notin {"Unknown", "dimensionless"})
+        => (~s.ok /\ s.exc = "UNITS")
   /\ ~s.ok => pool' = pool ]_vars
 
 C13_Frozen == [][ \A k \in 1..Len(pool) : pool'[k] = pool[k] ]_vars
